@@ -176,3 +176,93 @@ Proof.
   cbn [fst] in E. subst a. apply filter_In in H. destruct H as [H _]. unfold strand_str, strand_data in *.
   destruct (f >=? 0); vm_compute in H; repeat (destruct H as [H|H]; [inversion H; subst; vm_compute; reflexivity|]); destruct H.
 Qed.
+
+(* ---- discharging the hypothesis of rx_modes_spec: patterns every match of which begins with a residue ---------------------------- *)
+(* head_ok P r: r is not nullable and every word of its language begins with a character satisfying P (syntactic, sufficient) *)
+Fixpoint head_ok (P : byte -> bool) (r : C13_Rx.rx) : bool :=
+  match r with
+  | C13_Rx.XChr c => P c
+  | C13_Rx.XDot => false
+  | C13_Rx.XCls neg cs => negb neg && forallb P cs
+  | C13_Rx.XCat a _ => head_ok P a
+  | C13_Rx.XAlt a b => head_ok P a && head_ok P b
+  | C13_Rx.XStar _ | C13_Rx.XOpt _ => false
+  | C13_Rx.XPlus a => head_ok P a
+  | C13_Rx.XGrp _ a => head_ok P a
+  end.
+
+Lemma head_ok_lang P r t : C13_Rx.lang r t -> head_ok P r = true -> exists c t', t = c :: t' /\ P c = true.
+Proof.
+  intros L. induction L as [c|x Hx|neg cs x Hx|a b t u La IHa Lb IHb|a b t La IHa|a b t Lb IHb|a|a t u La IHa Ls IHs|a t u La IHa Ls IHs|a|a t La IHa|c a t La IHa];
+    cbn [head_ok]; intros HK; try discriminate.
+  - exists c, []. split; [reflexivity|exact HK].
+  - apply andb_prop in HK. destruct HK as [Hn Hf]. destruct neg; [discriminate|]. cbn [negb] in *.
+    exists x, []. split; [reflexivity|]. rewrite forallb_forall in Hf. apply Hf.
+    unfold C05_Model.has in Hx. apply existsb_exists in Hx. destruct Hx as [y [Hy E]]. apply byte_eqb_eq in E. subst y. exact Hy.
+  - destruct (IHa HK) as [c [t' [E Pc]]]. subst t. exists c, (t' ++ u). split; [reflexivity|exact Pc].
+  - apply andb_prop in HK. destruct HK as [Ha _]. apply IHa. exact Ha.
+  - apply andb_prop in HK. destruct HK as [_ Hb]. apply IHb. exact Hb.
+  - destruct (IHa HK) as [c [t' [E Pc]]]. subst t. exists c, (t' ++ u). split; [reflexivity|exact Pc].
+  - apply IHa. exact HK.
+Qed.
+
+Lemma head_ok_gapify P g r : head_ok P r = true -> head_ok P (C13_Rx.gapify g r) = true.
+Proof.
+  induction r; cbn [C13_Rx.gapify head_ok]; intros H; try exact H; try discriminate.
+  - apply IHr1. exact H.
+  - apply andb_prop in H. destruct H as [H1 H2]. rewrite IHr1, IHr2 by assumption. reflexivity.
+  - apply IHr. exact H.
+  - apply IHr. exact H.
+Qed.
+
+Lemma last_res_g_nth g : forall d i c, nth_error d i = Some c -> is_gap_g g c = false -> (i < last_res_g g d)%nat.
+Proof.
+  induction d as [|x d IH]; intros i c H G; [destruct i; discriminate|]. cbn [last_res_g]. destruct i as [|i].
+  - cbn in H. inversion H; subst x. rewrite G. destruct (last_res_g g d); lia.
+  - cbn [nth_error] in H. pose proof (IH i c H G) as K. destruct (last_res_g g d); lia.
+Qed.
+
+Lemma last_res_g_strand g s f : gap_safe g = true -> last_res_g g (strand_str s f) = last_res_g g (strand_data s f).
+Proof.
+  intros S. rewrite !last_res_transfer. rewrite <- strand_str_to_dash by exact S. rewrite <- strand_data_to_dash. apply last_res_strand.
+Qed.
+
+Lemma skipn_head_nth {A} : forall i (t : list A) c r, skipn i t = c :: r -> nth_error t i = Some c.
+Proof.
+  induction i as [|i IH]; intros t c r H; destruct t as [|x t]; cbn in *; try discriminate.
+  - inversion H. reflexivity.
+  - eapply IH. exact H.
+Qed.
+
+Lemma firstn_head {A} : forall n (l : list A) c r, firstn n l = c :: r -> exists r', l = c :: r'.
+Proof. intros n l c r H. destruct n; [discriminate|]. destruct l as [|x l]; [discriminate|]. cbn in H. inversion H. eauto. Qed.
+
+Theorem rx_starts_before_last gap rs s f :
+  gap_safe (gap_set gap) = true -> head_ok (fun c => negb (is_gap_g (gap_set gap) c)) rs = true ->
+  Forall (fun a => a < Z.of_nat (last_res_g (gap_set gap) (strand_data s f))) (starts_rx gap rs s f).
+Proof.
+  intros S H. apply Forall_forall. intros a Ha. unfold starts_rx in Ha. apply in_map_iff in Ha.
+  destruct Ha as [[i e] [Ea Hin]]. cbn [fst] in Ea. subst a. unfold hits_rx in Hin. apply filter_In in Hin. destruct Hin as [Hin _].
+  apply (C13_RxLemmas.finditer_m_sound (C13_Rx.m_rx (C13_Rx.eff_rx gap rs))) in Hin;
+    [|intros t n Hn; apply C13_RxLemmas.m_rx_sound in Hn; destruct Hn as [Hn _]; exact Hn].
+  destruct Hin as (_ & Hlt & _ & Hm). rewrite Nat.sub_0_r in Hm. apply C13_RxLemmas.m_rx_sound in Hm. destruct Hm as [_ Hl].
+  assert (HO : head_ok (fun c => negb (is_gap_g (gap_set gap) c)) (C13_Rx.eff_rx gap rs) = true).
+  { destruct gap as [g|]; cbn [C13_Rx.eff_rx]; [apply head_ok_gapify; exact H|exact H]. }
+  destruct (head_ok_lang _ _ _ Hl HO) as [c [t' [E Pc]]].
+  apply firstn_head in E. destruct E as [r' E]. apply skipn_head_nth in E.
+  apply negb_true_iff in Pc. pose proof (last_res_g_nth _ _ _ _ E Pc) as K. rewrite last_res_g_strand in K by exact S. lia.
+Qed.
+
+(* every mode, regex patterns whose start pattern begins with residue letters / positive classes of residue letters: no
+   hypothesis about the text is left *)
+Theorem rx_modes_spec_plain gap rs rp r ns need_stop minlen s :
+  gap_safe (gap_set gap) = true -> head_ok (fun c => negb (is_gap_g (gap_set gap) c)) rs = true ->
+  nodupz (frames_of r) = true ->
+  find_orfs_rx gap rs rp (RAspec r) ns need_stop minlen s =
+  XOk (concat (map (fun f => orfs_of minlen f (Z.of_nat (length s))
+                     (spec_mode ns need_stop (Z.of_nat (frame_start_g (gap_set gap) (strand_data s f) f))
+                                (Z.of_nat (last_res_g (gap_set gap) (strand_data s f))) (Z.of_nat (length s))
+                                (starts_rx gap rs s f) (stops_rx gap rp s f))) (frames_of r))).
+Proof.
+  intros S H N. apply rx_modes_spec; [exact N|]. intros _ f. apply rx_starts_before_last; assumption.
+Qed.
